@@ -83,7 +83,9 @@ THEOREMS = [
     "MenpoModel.C01.rescale_plan_defined", "MenpoModel.C01.rescale_index_space",
     "MenpoModel.C01.zoom_plan_invertible", "MenpoModel.C01.zoom_fixes_centre",
     "MenpoModel.C01.crop_plan_translation", "MenpoModel.C01.translation_warp_exact",
-    "MenpoModel.C01.crop_registration", "MenpoModel.C01.about_plan_invertible",
+    "MenpoModel.C01.crop_registration", "MenpoModel.C01.translation_warp_sampling",
+    "MenpoModel.C01.crop_region_inside", "MenpoModel.C01.crop_exact_registration",
+    "MenpoModel.C01.about_plan_invertible",
     "MenpoModel.C01.rotate_plan_defined", "MenpoModel.C01.about_corners_in_frame",
     "MenpoModel.C01.mirror_plan_invertible", "MenpoModel.C01.mirror_involution", "MenpoModel.C01.mirror_pixels",
     "MenpoModel.C01.warp_plan_invertible", "MenpoModel.C01.pyramid_step_registered",
@@ -1290,7 +1292,7 @@ def run(ctx):
                     "Homogeneous.pseudoinverse = matrix inverse (C04); PiecewiseAffine / ThinPlateSplines apply & pseudoinverse (C04, C09)",
                     "numpy cos/sin/deg2rad of the generated angles"]
     r = Run(ctx)
-    explore(r, ctx.n(6, 40))
+    explore(r, ctx.n(6, 100))
     r.settle()
     return ctx.finish(search)
 
